@@ -40,6 +40,9 @@ impl MT299 {
         // Parse mandatory Field 79
         let field_79 = parser.parse_field::<Field79>("79")?;
 
+        // Reject content left after the last field of the message
+        verify_parser_complete(&parser)?;
+
         Ok(MT299 {
             field_20,
             field_21,
